@@ -68,7 +68,7 @@ func classifyText(t string) textInfo {
 	case isRange(err):
 		return textInfo{class: "floatrange"}
 	}
-	if _, err := strconv.ParseBool(t); err == nil || lenientBool[strings.ToLower(t)] {
+	if _, err := strconv.ParseBool(t); err == nil || boolWord(t) {
 		return textInfo{class: "bool"}
 	}
 	return textInfo{class: "word"}
@@ -152,6 +152,11 @@ func expectText(s src, t *tkind) expectation {
 		return e
 	case cBool:
 		if isInt || ti.class == "float" || ti.class == "floatrange" {
+			return unpinned
+		}
+		if ti.class == "bool" && e.mode == mErr {
+			// a word strconv refuses ("on"): which words the text->value step
+			// of an expansion takes as booleans is its own documented list
 			return unpinned
 		}
 		return e
